@@ -4,18 +4,21 @@
    AtMostOnce needs them excluded).  Only the INPUTS are recorded in hist; drivers/g02_buildphases.py
    replays them on the real buildable / install_op / uninstall_op / replace_op / binpkg_localize
    objects with a scripted ebuild processor, and BuildPhases_Trace judges what those did.     *)
-EXTENDS BuildPhases_MC
+EXTENDS BuildPhases_MC, SequencesExt
 CONSTANT D
 VARIABLES hist, fin
 A(op, stage, ignore, force, cas, failAt, how) ==
   [op |-> op, stage |-> stage, ignore |-> ignore, force |-> force, cas |-> cas, failAt |-> failAt, how |-> how]
 SimInit == Init /\ hist = <<>> /\ fin = FALSE
-FaultsSim == {<<"-", "ok">>, <<"fetch", "fail">>} \cup (PhaseNames \X (Outcomes \ {"ok"}))
+\* one fault (or none, two times out of three) per call, drawn by TLC's random generator: simulation mode
+\* computes EVERY successor of a state before it picks one, so the choice is made here
+FaultsFor(stage) == {<<"fetch", "fail">>} \cup (((DepsSet(cfg.kind, stage) \cap PhaseNames)) \X (Outcomes \ {"ok"}))
+Draw(stage) == IF RandomElement(1..3) = 1 THEN RandomElement(FaultsFor(stage)) ELSE <<"-", "ok">>
 Step ==
   /\ Len(hist) < D /\ UNCHANGED fin /\ n' = n + 1 /\ cfg' = cfg
-  /\ \/ \E stage \in StagesOf(cfg.kind), f \in FaultsSim :
+  /\ \/ \E stage \in StagesOf(cfg.kind) : \E f \in {Draw(stage)} :
           DoCall(stage, FALSE, ScriptOf(f[1], f[2])) /\ hist' = Append(hist, A("call", stage, FALSE, FALSE, FALSE, f[1], f[2]))
-     \/ \E stage \in StagesOf(cfg.kind) \ {"start", "finalize"}, f \in FaultsSim :
+     \/ \E stage \in StagesOf(cfg.kind) \ {"start", "finalize"} : \E f \in {Draw(stage)} :
           Leafy /\ DoCall(stage, TRUE, ScriptOf(f[1], f[2])) /\ hist' = Append(hist, A("call", stage, TRUE, FALSE, FALSE, f[1], f[2]))
      \/ \E force \in BOOLEAN : DoCleanup(force) /\ hist' = Append(hist, A("cleanup", "-", FALSE, force, FALSE, "-", "ok"))
      \/ DoReload /\ hist' = Append(hist, A("reload", "-", FALSE, FALSE, FALSE, "-", "ok"))
